@@ -1,7 +1,8 @@
 import PEval.Driver.Util
 import PEval.Model.Dataset
 /-! Driver handler for C16 (dataset loader): `{"op":"load", <tables>, "configs":[{task,frame,merge}]}`
-→ `{"results":[{"frames":[…]} | {"err": kind}]}`. -/
+→ `{"results":[{"frames":[…]} | {"err": kind}]}`; `{"op":"load2d", <tables>, "configs":[{task,family,merge,frames}]}`
+for the 2-D tasks. -/
 open Lean
 
 namespace PEval.Driver.C16
@@ -20,9 +21,16 @@ def getQuat (j : Json) (k : String) : Except String Quat := do
 def getTable {α} (j : Json) (k : String) (f : Json → Except String α) : Except String (List α) := do
   (← getArr j k).toList.mapM f
 
+def optStr (j : Json) (k : String) : String := (getStr j k).toOption.getD ""
+
 def decodeTables (j : Json) : Except String Tables := do
   let samples ← getTable j "samples" (fun r => do
-    pure ({ token := ← getStr r "token", timestamp := ← getNat r "timestamp" } : Sample))
+    let ts ← getNat r "timestamp"
+    -- "secs": the float `1e-6 * timestamp` handed in exactly; absent = exact seconds
+    let secs := match getRat r "secs" with
+      | .ok x => x
+      | .error _ => (ts : Rat) / 1000000
+    pure ({ token := ← getStr r "token", timestamp := ts, secs := secs } : Sample))
   let sensors ← getTable j "sensors" (fun r => do
     pure ({ token := ← getStr r "token", channel := ← getStr r "channel" } : Sensor))
   let calibs ← getTable j "calibrated_sensors" (fun r => do
@@ -42,16 +50,26 @@ def decodeTables (j : Json) : Except String Tables := do
   let attrs ← named "attributes" "name"
   let vis ← named "visibility" "level"
   let insts ← getTable j "instances" (fun r => do
-    pure ({ token := ← getStr r "token", categoryToken := ← getStr r "category_token" } : Instance))
+    pure ({ token := ← getStr r "token", categoryToken := ← getStr r "category_token",
+            instanceName := optStr r "instance_name" } : Instance))
   let anns ← getTable j "annotations" (fun r => do
     pure ({ token := ← getStr r "token", sampleToken := ← getStr r "sample_token",
             instanceToken := ← getStr r "instance_token", visibilityToken := ← getStr r "visibility_token",
             attributeTokens := ← getStrList r "attribute_tokens", translation := ← getVec3 r "translation",
             size := ← getVec3 r "size", rotation := ← getQuat r "rotation", prev := ← getStr r "prev",
-            numLidarPts := ← getNat r "num_lidar_pts" } : Annotation))
+            next := ← getStr r "next", numLidarPts := ← getNat r "num_lidar_pts" } : Annotation))
+  let oanns ← match getArr j "object_anns" with
+    | .error _ => pure []
+    | .ok arr => arr.toList.mapM (fun r => do
+      match ← getRatList r "bbox" with
+      | [x0, y0, x1, y1] =>
+        pure ({ token := ← getStr r "token", sampleDataToken := ← getStr r "sample_data_token",
+                instanceToken := ← getStr r "instance_token", categoryToken := ← getStr r "category_token",
+                attributeTokens := ← getStrList r "attribute_tokens", x0 := x0, y0 := y0, x1 := x1, y1 := y1 } : ObjectAnn)
+      | _ => throw "bbox: expected 4 rationals")
   pure { samples := samples, sensors := sensors, calibratedSensors := calibs, egoPoses := egos,
          sampleData := sdata, categories := cats, attributes := attrs, visibility := vis,
-         instances := insts, annotations := anns }
+         instances := insts, annotations := anns, objectAnns := oanns }
 
 def frameMember (s : String) : String :=
   match Enums.frameFromValue s with
@@ -60,11 +78,24 @@ def frameMember (s : String) : String :=
 
 def decodeConfig (j : Json) : Except String Config := do
   let task ← getStr j "task"
-  pure { tracking := task == "tracking", frame := frameMember (← getStr j "frame"), merge := ← getBool j "merge" }
+  pure { tracking := task == "tracking", frame := frameMember (← getStr j "frame"), merge := ← getBool j "merge",
+         fpValidation := task == "fp_validation" }
+
+def decodeConfig2D (j : Json) : Except String Config2D := do
+  let task ← getStr j "task"
+  let member := match Enums.taskFromValue task with
+    | .ok m => m
+    | .error _ => task
+  pure { task := member, family := ← getStr j "family", merge := ← getBool j "merge",
+         frames := (← getStrList j "frames").map frameMember }
 
 def jVec (v : Vec3) : Json := Json.arr #[jRat v.x, jRat v.y, jRat v.z]
 def jQuat (q : Quat) : Json := Json.arr #[jRat q.w, jRat q.x, jRat q.y, jRat q.z]
 def jPose (p : Pose) : List (String × Json) := [("pos", jVec p.pos), ("rot", jQuat p.rot)]
+
+def jOptVec : Option Vec3 → Json
+  | some v => jVec v
+  | none => Json.null
 
 def jObj (o : Obj) : Json :=
   Json.mkObj ([("uuid", Json.str o.uuid), ("label", Json.str o.label), ("name", Json.str o.name),
@@ -73,12 +104,29 @@ def jObj (o : Obj) : Json :=
     ("frame", Json.str o.frame), ("time", jNat o.time),
     ("tracked", match o.tracked with
       | none => Json.null
-      | some l => jList (fun (s : PastState) => Json.mkObj (jPose s.pose ++ [("size", jVec s.size)])) l)]
+      | some l => jList (fun (s : PastState) =>
+          Json.mkObj (jPose s.pose ++ [("size", jVec s.size), ("vel", jOptVec s.velocity)])) l),
+    ("vel", jOptVec o.velocity)]
     ++ jPose o.pose)
 
 def jFrame (f : Frame) : Json :=
   Json.mkObj [("t", jNat f.unixTime), ("name", Json.str f.frameName),
     ("ego2map", Json.mkObj (jPose f.ego2map)), ("objects", jList jObj f.objects)]
+
+def jObj2D (o : Obj2D) : Json :=
+  Json.mkObj [("uuid", Json.str o.uuid), ("label", Json.str o.label), ("name", Json.str o.name),
+    ("attrs", jList Json.str o.attributes),
+    ("roi", match o.roi with
+      | some r => Json.arr #[jInt r.x, jInt r.y, jInt r.w, jInt r.h]
+      | none => Json.null),
+    ("frame", Json.str o.frame), ("time", jNat o.time)]
+
+def jFrame2D (f : Frame2D) : Json :=
+  Json.mkObj [("t", jNat f.unixTime), ("name", Json.str f.frameName),
+    ("ego2map", match f.ego2map with
+      | some p => Json.mkObj (jPose p)
+      | none => Json.null),
+    ("objects", jList jObj2D f.objects)]
 
 def handle : Json → Except String Json := fun j => do
   let op ← getStr j "op"
@@ -89,6 +137,14 @@ def handle : Json → Except String Json := fun j => do
     let res := cfgs.map (fun cfg =>
       match loadDataset T cfg with
       | .ok frames => Json.mkObj [("frames", jList jFrame frames)]
+      | .error k => Json.mkObj [("err", Json.str k)])
+    pure (Json.mkObj [("results", Json.arr res.toArray)])
+  | "load2d" =>
+    let T ← decodeTables j
+    let cfgs ← (← getArr j "configs").toList.mapM decodeConfig2D
+    let res := cfgs.map (fun cfg =>
+      match loadDataset2D T cfg with
+      | .ok frames => Json.mkObj [("frames", jList jFrame2D frames)]
       | .error k => Json.mkObj [("err", Json.str k)])
     pure (Json.mkObj [("results", Json.arr res.toArray)])
   | o => throw s!"unknown op {o}"
